@@ -39,3 +39,7 @@ pub assume_specification[ i64::saturating_sub ](a: i64, b: i64) -> (r: i64) ensu
 
 pub assume_specification[ String::len ](s: &String) -> (r: usize)
     ensures r == string_bytes(*s).len();
+
+/// `str::chars().count()`: number of Unicode scalar values -- NOT the byte length (no relation to string_bytes is given,
+/// so a length check written with it proves nothing about the encoded size)
+pub assume_specification<'a>[ <core::str::Chars<'a> as Iterator>::count ](it: core::str::Chars<'a>) -> (n: usize);
